@@ -1,4 +1,4 @@
-import SupervisorModel.Lemmas.SupLemmas
+import SupervisorModel.Lemmas.SupInvPass
 /-
   C02 — every child is tracked and reaped once; reported state and live child agree.
 
@@ -79,19 +79,108 @@ theorem reap_bound (ws : List (Int × Int)) (s : Sup) :
 
 /-- **An exit is attributed to the process recorded at fork time and to no other**: reaping pid
     changes only the process `pidhistory` maps it to -/
-theorem reap_only_owner (pid es : Int) (name : Nat) (s : Sup) (hl : s.pidhist.lookup pid = some name)
+theorem reap_only_owner (pid es : Int) (name gen : Nat) (s : Sup) (hl : s.pidhist.lookup pid = some (name, gen))
     (he : s.err = none) (hx : s.exited = false) (hp : pid ≠ 0) :
     ∀ m, m ≠ name → findPE (reapLoop 0 [(pid, es)] s).procs m = findPE s.procs m := by
   intro m hm
   have h1 := onProc_others name (fun cfg => finish cfg s.env.now es false) s m hm
-  simp only [reapLoop, sguard, he, hx, reap_g0, reap_g1, hl]
-  simp [hp]
+  have hd : ∀ t : Sup, (delHist pid t).procs = t.procs := by
+    intro t; unfold delHist sguard; split <;> rfl
+  simp [reapLoop, sguard, he, hx, reap_g0, reap_g1, hl, hp, reapOne]
+  rw [hd]
   split
   · exact h1
-  · exact h1
+  · rfl
 
 -- non-vacuity: the burst case of the quantifier (130 exited children, none known)
 example : (reapLoop 0 ((List.range 130).map fun (i : Nat) => (((i : Int) + 1000), (0 : Int))) { procs := [] }).outs.length = 100 := by
   decide +kernel
+
+/-! ### the daemon: process table and `pidhistory` at every main-loop boundary -/
+
+/-- **The daemon's bookkeeping holds at every main-loop boundary.**  Start from any configuration with
+    distinct process names, fresh process objects and non-negative `startsecs`; run any number of
+    passes of `runforever()` under *any* environments (clock readings, fork/kill/waitpid answers —
+    fork honouring the kernel's contract —, signals, and any RPCs: start, stop, signal, shutdown,
+    restart, addProcessGroup, removeProcessGroup).  Then `SInv` holds: names are still distinct,
+    every process satisfies the per-process invariant `Inv`, every held pid is recorded in
+    `pidhistory` for exactly the process object that holds it, every `pidhistory` entry that names a
+    current process object is the pid that object holds, no entry names a later incarnation than the
+    current one, and pid 0 is never recorded. -/
+theorem daemon_bookkeeping (procs dormant : List PE) (hn : ((procs ++ dormant).map (·.name)).Nodup)
+    (hp : ∀ e ∈ procs, e.p = {}) (hc : ∀ e ∈ procs ++ dormant, 0 ≤ e.cfg.startsecs) (envs : List Sup.Env) :
+    SInv (passes envs { procs := procs, dormant := dormant }) :=
+  (passes_good envs _ (init_good procs dormant hn hp hc)).1
+
+/-- **Every child is tracked**: at every main-loop boundary, a process that holds a child has its pid
+    in `pidhistory`, recorded for that very process object (name and incarnation) — so the exit of
+    the child will be attributed to it. -/
+theorem held_pid_recorded (procs dormant : List PE) (hn : ((procs ++ dormant).map (·.name)).Nodup)
+    (hp : ∀ e ∈ procs, e.p = {}) (hc : ∀ e ∈ procs ++ dormant, 0 ≤ e.cfg.startsecs) (envs : List Sup.Env) :
+    ∀ e ∈ (passes envs { procs := procs, dormant := dormant }).procs, e.p.pid ≠ 0 →
+      (passes envs { procs := procs, dormant := dormant }).pidhist.lookup e.p.pid = some (e.name, e.gen) :=
+  (daemon_bookkeeping procs dormant hn hp hc envs).hist
+
+/-- **No two processes share a child**: at every main-loop boundary, two entries of the process table
+    that hold the same (non-zero) pid are the same entry. -/
+theorem no_two_processes_share_a_pid (procs dormant : List PE) (hn : ((procs ++ dormant).map (·.name)).Nodup)
+    (hp : ∀ e ∈ procs, e.p = {}) (hc : ∀ e ∈ procs ++ dormant, 0 ≤ e.cfg.startsecs) (envs : List Sup.Env) :
+    ∀ e ∈ (passes envs { procs := procs, dormant := dormant }).procs,
+    ∀ e' ∈ (passes envs { procs := procs, dormant := dormant }).procs,
+      e.p.pid ≠ 0 → e.p.pid = e'.p.pid → e = e' := by
+  intro e he e' he' hz heq
+  have hI := daemon_bookkeeping procs dormant hn hp hc envs
+  have h1 := hI.hist e he hz
+  have h2 := hI.hist e' he' (heq ▸ hz)
+  rw [heq, h2] at h1
+  simp only [Option.some.injEq, Prod.mk.injEq] at h1
+  exact (hI.uniq (List.mem_append_left _ he) (List.mem_append_left _ he') h1.1.symm)
+
+/-- **Reported state and held child agree for every process of the daemon, at every main-loop boundary**
+    (the per-process invariant of `state_pid_agree`, now for the processes of the running daemon, with
+    reaping, RPCs and group removal/addition interleaved as the main loop interleaves them). -/
+theorem state_pid_agree_daemon (procs dormant : List PE) (hn : ((procs ++ dormant).map (·.name)).Nodup)
+    (hp : ∀ e ∈ procs, e.p = {}) (hc : ∀ e ∈ procs ++ dormant, 0 ≤ e.cfg.startsecs) (envs : List Sup.Env) :
+    ∀ e ∈ (passes envs { procs := procs, dormant := dormant }).procs, Inv e.p :=
+  (daemon_bookkeeping procs dormant hn hp hc envs).inv
+
+/-- **`pidhistory` is a well-formed map at every main-loop boundary**: no pid occurs twice, pid 0 is never
+    recorded, and no entry names a later incarnation of a process than the current one (entries of
+    removed groups may survive until their child is reaped — they name an earlier incarnation). -/
+theorem pidhistory_wellformed (procs dormant : List PE) (hn : ((procs ++ dormant).map (·.name)).Nodup)
+    (hp : ∀ e ∈ procs, e.p = {}) (hc : ∀ e ∈ procs ++ dormant, 0 ≤ e.cfg.startsecs) (envs : List Sup.Env) :
+    ((passes envs { procs := procs, dormant := dormant }).pidhist.map (·.1)).Nodup ∧
+    (∀ x ∈ (passes envs { procs := procs, dormant := dormant }).pidhist, x.1 ≠ 0) ∧
+    (∀ x ∈ (passes envs { procs := procs, dormant := dormant }).pidhist,
+      ∀ e ∈ (passes envs { procs := procs, dormant := dormant }).procs ++ (passes envs { procs := procs, dormant := dormant }).dormant,
+        e.name = x.2.1 → x.2.2 ≤ e.gen) := by
+  have hI := daemon_bookkeeping procs dormant hn hp hc envs
+  refine ⟨hI.keys, ?_, ?_⟩
+  · intro x hx h0
+    have := hI.nz
+    rw [List.lookup_eq_none_iff] at this
+    have h1 := this x hx
+    simp [h0] at h1
+  · intro x hx e he hen
+    exact hI.gens x.1 x.2.1 x.2.2 (lookup_of_mem _ hI.keys hx) e he hen
+
+-- non-vacuity: a two-process configuration meets the hypotheses, and one pass over it forks both
+-- children and records them
+def cfgD : Cfg where
+  startsecs := 1024
+  startretries := 3
+  autostart := true
+  autorestart := .unexpected
+  exitcodes := [0]
+  stopsignal := 15
+  stopwaitsecs := 10240
+  stopasgroup := false
+  killasgroup := false
+def peA : PE := { name := 0, gid := 0, gprio := 999, prio := 999, cfg := cfgD }
+def peB : PE := { name := 1, gid := 1, gprio := 999, prio := 999, cfg := cfgD }
+example : (List.map (fun (e : PE) => e.name) ([peA, peB] ++ [])).Nodup ∧ (∀ e ∈ [peA, peB], e.p = {}) ∧
+    (∀ e ∈ [peA, peB] ++ ([] : List PE), 0 ≤ e.cfg.startsecs) := by decide
+example : (passes [{ now := 1024000, spawns := [.ok 7, .ok 8], waits := [[]] }] { procs := [peA, peB] }).pidhist
+    = [(7, (0, 0)), (8, (1, 0))] := by decide +kernel
 
 end Sv.Props.C02
